@@ -10,6 +10,10 @@ impl Clone for TypeDef {
 }
 impl TypeDef {
     #[verifier::external_body] pub fn never() -> (r: TypeDef) { unimplemented!() }
+    pub uninterp spec fn spec_undefined() -> TypeDef;
+    #[verifier::external_body] pub fn undefined() -> (r: TypeDef) ensures r == Self::spec_undefined() { unimplemented!() }
+    pub uninterp spec fn spec_infallible(self) -> TypeDef;
+    #[verifier::external_body] pub fn infallible(self) -> (r: TypeDef) ensures r == self.spec_infallible() { unimplemented!() }
     #[verifier::external_body] pub fn with_type_inserted(self, path: &OwnedValuePath, other: TypeDef) -> (r: TypeDef) { unimplemented!() }
     #[verifier::external_body] pub fn union(self, other: TypeDef) -> (r: TypeDef) { unimplemented!() }
     #[verifier::external_body] pub fn remove(&mut self, path: &OwnedValuePath, compact: bool) { unimplemented!() }
